@@ -3,8 +3,11 @@ Require Import SquidV.Bytes SquidV.RelayModel.
 Require Import SquidV.gen.Relay_gen.
 Require Import ZifyBool ZifyN ZifyNat.
 Local Open Scope N_scope.
+Ltac Zify.zify_post_hook ::= Z.div_mod_to_equations.
 
-(* ---------- the framing decision functions agree with HttpReply.cc on the regenerated table ---------- *)
+(* ====================================================================================================== *)
+(* 0. the framing decision functions agree with HttpReply.cc on the regenerated table                      *)
+(* ====================================================================================================== *)
 Definition enc_size (o : option N) : N := match o with None => 0 | Some n => n + 1 end.
 Definition row_ok (r : (N * bool * bool * bool) * (bool * N * N)) : bool :=
   let '((st, hd, cl, ch), (eb, sz, bs)) := r in
@@ -15,3 +18,283 @@ Definition row_ok (r : (N * bool * bool * bool) * (bool * N * N)) : bool :=
 
 Lemma framing_table_ok : forallb row_ok framing_table = true.
 Proof. vm_compute. reflexivity. Qed.
+
+(* ====================================================================================================== *)
+(* 1. list helpers                                                                                         *)
+(* ====================================================================================================== *)
+Definition nonempty (l : bytes) : Prop := l <> [].
+
+Lemma takeN_0 {A} (l : list A) : takeN 0 l = [].
+Proof. destruct l; reflexivity. Qed.
+
+Lemma dropN_0 {A} (l : list A) : dropN 0 l = l.
+Proof. destruct l; reflexivity. Qed.
+
+Lemma takeN_app {A} k (a b : list A) : takeN k (a ++ b) = takeN k a ++ takeN (k - lenN a) b.
+Proof.
+  revert k; induction a as [|x a IH]; intros k.
+  - cbn [app takeN lenN]. now rewrite N.sub_0_r.
+  - cbn [app takeN lenN]. destruct (k =? 0) eqn:E.
+    + apply N.eqb_eq in E. subst k. cbn [app]. now rewrite takeN_0.
+    + apply N.eqb_neq in E. cbn [app]. rewrite IH. do 2 f_equal. lia.
+Qed.
+
+Lemma dropN_app {A} k (a b : list A) : dropN k (a ++ b) = dropN k a ++ dropN (k - lenN a) b.
+Proof.
+  revert k; induction a as [|x a IH]; intros k.
+  - cbn [app dropN lenN]. now rewrite N.sub_0_r.
+  - cbn [app dropN lenN]. destruct (k =? 0) eqn:E.
+    + apply N.eqb_eq in E. subst k. now rewrite dropN_0.
+    + apply N.eqb_neq in E. rewrite IH. do 2 f_equal. lia.
+Qed.
+
+Lemma takeN_all {A} k (l : list A) : lenN l <= k -> takeN k l = l.
+Proof.
+  revert k; induction l as [|x l IH]; intros k H; cbn [takeN lenN] in *; [reflexivity|].
+  destruct (k =? 0) eqn:E; [apply N.eqb_eq in E; lia|]. f_equal. apply IH. lia.
+Qed.
+
+Lemma dropN_all {A} k (l : list A) : lenN l <= k -> dropN k l = [].
+Proof.
+  revert k; induction l as [|x l IH]; intros k H; cbn [dropN lenN] in *; [reflexivity|].
+  destruct (k =? 0) eqn:E; [apply N.eqb_eq in E; lia|]. apply IH. lia.
+Qed.
+
+Lemma lenN_dropN {A} k (l : list A) : lenN (dropN k l) = lenN l - k.
+Proof.
+  revert k; induction l as [|x l IH]; intros k; cbn [dropN lenN]; [lia|].
+  destruct (k =? 0) eqn:E; [apply N.eqb_eq in E; subst; cbn [lenN]; lia|].
+  apply N.eqb_neq in E. rewrite IH. lia.
+Qed.
+
+Lemma lenN_nil_iff {A} (l : list A) : lenN l = 0 <-> l = [].
+Proof. destruct l; cbn [lenN]; split; intros H; try reflexivity; try discriminate; lia. Qed.
+
+Lemma lenN_pos {A} (l : list A) : l <> [] -> 1 <= lenN l.
+Proof. destruct l; cbn [lenN]; [congruence|lia]. Qed.
+
+(* ====================================================================================================== *)
+(* 2. the reference chunked reader                                                                         *)
+(* ====================================================================================================== *)
+Lemma crun_final s l : cst_final s = true -> crun s l = (s, [], l).
+Proof. intros H. destruct l; cbn [crun]; [reflexivity| now rewrite H]. Qed.
+
+Lemma crun_cons s c r : cst_final s = false ->
+  crun s (c :: r) = let '(s1, o1) := cstep s c in let '(s2, o2, rest) := crun s1 r in (s2, o1 ++ o2, rest).
+Proof. intros H. cbn [crun]. now rewrite H. Qed.
+
+(* reading is independent of how the input is cut *)
+Lemma crun_app s a b :
+  crun s (a ++ b) =
+  let '(s1, o1, r1) := crun s a in
+  let '(s2, o2, r2) := crun s1 (r1 ++ b) in (s2, o1 ++ o2, r2).
+Proof.
+  revert s; induction a as [|c a IH]; intros s.
+  - cbn [app crun]. destruct (crun s b) as [[s2 o2] r2]. reflexivity.
+  - destruct (cst_final s) eqn:F.
+    + rewrite (crun_final s (c :: a) F). rewrite (crun_final s ((c :: a) ++ b) F).
+      rewrite (crun_final s ((c :: a) ++ b) F). reflexivity.
+    + change ((c :: a) ++ b) with (c :: (a ++ b)). rewrite !crun_cons by exact F.
+      destruct (cstep s c) as [s1 o1]. rewrite IH.
+      destruct (crun s1 a) as [[sa oa] ra]. destruct (crun sa (ra ++ b)) as [[s2 o2] r2].
+      now rewrite app_assoc.
+Qed.
+
+(* the reader stops early only in a final state *)
+Lemma crun_rest s l st o r : crun s l = (st, o, r) -> cst_final st = false -> r = [].
+Proof.
+  revert s st o r; induction l as [|c l IH]; intros s st o r H F.
+  - cbn [crun] in H. now inversion H.
+  - destruct (cst_final s) eqn:Fs.
+    + rewrite crun_final in H by exact Fs. inversion H; subst. congruence.
+    + rewrite crun_cons in H by exact Fs. destruct (cstep s c) as [s1 o1].
+      destruct (crun s1 l) as [[s2 o2] r2] eqn:E. inversion H; subst. eapply IH; eauto.
+Qed.
+
+Lemma crun_final_stays s l st o r : crun s l = (st, o, r) -> cst_final s = true -> st = s /\ o = [] /\ r = l.
+Proof. intros H F. rewrite crun_final in H by exact F. inversion H; auto. Qed.
+
+(* continuation form of one step *)
+Lemma crun_step s c r s1 : cst_final s = false -> cstep s c = (s1, []) -> crun s (c :: r) = crun s1 r.
+Proof.
+  intros F H. rewrite crun_cons by exact F. rewrite H. destruct (crun s1 r) as [[s2 o2] r2]. reflexivity.
+Qed.
+
+(* ---------- hexadecimal chunk sizes ---------- *)
+Lemma hexdig_ok u n : n < 16 -> is_hex (hexdig u n) = true /\ hexval (hexdig u n) = n.
+Proof.
+  intros H.
+  assert (C : n = 0 \/ n = 1 \/ n = 2 \/ n = 3 \/ n = 4 \/ n = 5 \/ n = 6 \/ n = 7 \/ n = 8 \/ n = 9 \/
+              n = 10 \/ n = 11 \/ n = 12 \/ n = 13 \/ n = 14 \/ n = 15) by lia.
+  destruct u; repeat (destruct C as [C|C]; [subst n; vm_compute; split; reflexivity|]); subst n; vm_compute; split; reflexivity.
+Qed.
+
+Lemma pow16_succ (k : nat) : 16 ^ N.of_nat (S k) = 16 * 16 ^ N.of_nat k.
+Proof. rewrite Nat2N.inj_succ. now rewrite N.pow_succ_r'. Qed.
+
+Lemma hex_run u : forall (fuel : nat) n rest,
+  n < 16 ^ N.of_nat fuel ->
+  (crun CSize0 (hex_digits fuel u n ++ rest) = crun (CSize n) rest) /\
+  (forall a, crun (CSize a) (hex_digits fuel u n ++ rest) =
+             crun (CSize (a * 16 ^ N.of_nat (length (hex_digits fuel u n)) + n)) rest).
+Proof.
+  induction fuel as [|k IH]; intros n rest Hn.
+  - cbn in Hn. lia.
+  - cbn [hex_digits]. destruct (n <? 16) eqn:E.
+    + apply N.ltb_lt in E. destruct (hexdig_ok u n E) as [Hh Hv]. split.
+      * cbn [app]. rewrite (crun_step CSize0 _ _ (CSize n)); [reflexivity|reflexivity|].
+        cbn [cstep]. now rewrite Hh, Hv.
+      * intros a. cbn [app length]. rewrite (crun_step (CSize a) _ _ (CSize (a * 16 + n))); [|reflexivity|].
+        -- do 2 f_equal. cbn. lia.
+        -- cbn [cstep]. now rewrite Hh, Hv.
+    + apply N.ltb_ge in E. rewrite pow16_succ in Hn.
+      assert (Hq : n / 16 < 16 ^ N.of_nat k) by (apply N.div_lt_upper_bound; lia).
+      assert (Hm : n mod 16 < 16) by (apply N.mod_lt; lia).
+      destruct (hexdig_ok u (n mod 16) Hm) as [Hh Hv].
+      destruct (IH (n / 16) ([hexdig u (n mod 16)] ++ rest) Hq) as [I1 I2].
+      assert (Hd : n = 16 * (n / 16) + n mod 16) by (apply N.div_mod; lia).
+      split.
+      * rewrite <- app_assoc. rewrite I1. cbn [app].
+        rewrite (crun_step (CSize (n / 16)) _ _ (CSize n)); [reflexivity|reflexivity|].
+        cbn [cstep]. rewrite Hh, Hv. do 2 f_equal. lia.
+      * intros a. rewrite <- app_assoc. rewrite I2. cbn [app].
+        rewrite (crun_step _ _ _ (CSize ((a * 16 ^ N.of_nat (length (hex_digits k u (n / 16))) + n / 16) * 16 + n mod 16)));
+          [|reflexivity|cbn [cstep]; now rewrite Hh, Hv].
+        do 2 f_equal. rewrite app_length. cbn [length]. rewrite Nat.add_1_r, pow16_succ. lia.
+Qed.
+
+Lemma lt_pow16 (k : nat) : N.of_nat k < 16 ^ N.of_nat (S k).
+Proof.
+  induction k as [|k IH]; [cbn; lia|].
+  rewrite pow16_succ. rewrite Nat2N.inj_succ in *. lia.
+Qed.
+
+Lemma hex_len_run u (d : bytes) rest :
+  crun CSize0 (hex_digits (S (length d)) u (lenN d) ++ rest) = crun (CSize (lenN d)) rest.
+Proof. apply hex_run. rewrite lenN_length. apply lt_pow16. Qed.
+
+(* ---------- chunk extensions ---------- *)
+Lemma ext_body_run n e rest : forallb no_crlf e = true ->
+  crun (CExt n) (e ++ 13 :: rest) = crun (CSizeLF n) rest.
+Proof.
+  induction e as [|c e IH]; intros H.
+  - cbn [app]. apply crun_step; reflexivity.
+  - cbn [forallb] in H. apply andb_prop in H. destruct H as [Hc He].
+    cbn [app]. rewrite (crun_step (CExt n) c _ (CExt n)); [now apply IH|reflexivity|].
+    unfold no_crlf in Hc. cbn [cstep].
+    destruct (c =? 13) eqn:E1; [discriminate|]. destruct (c =? 10) eqn:E2; [discriminate|]. reflexivity.
+Qed.
+
+Lemma ext_run n e rest : ext_ok e = true ->
+  crun (CSize n) (e ++ 13 :: rest) = crun (CSizeLF n) rest.
+Proof.
+  destruct e as [|c e]; intros H.
+  - cbn [app]. apply crun_step; reflexivity.
+  - cbn [ext_ok] in H. apply andb_prop in H. destruct H as [Hc He].
+    cbn [forallb] in He. apply andb_prop in He. destruct He as [Hn He].
+    cbn [app]. rewrite (crun_step (CSize n) c _ (CExt n)); [now apply ext_body_run|reflexivity|].
+    cbn [cstep]. unfold no_crlf in Hn.
+    assert (Hx : is_hex c = false).
+    { unfold is_hex, is_digit, is_uhex, is_lhex.
+      destruct (c =? 59) eqn:A; [apply N.eqb_eq in A; subst; reflexivity|].
+      destruct (c =? 32) eqn:B; [apply N.eqb_eq in B; subst; reflexivity|].
+      destruct (c =? 9) eqn:C; [apply N.eqb_eq in C; subst; reflexivity|]. discriminate. }
+    rewrite Hx. destruct (c =? 13) eqn:E1; [discriminate|]. now rewrite Hc.
+Qed.
+
+(* ---------- chunk data ---------- *)
+Lemma data_run : forall (d : bytes) n rest s o r,
+  lenN d = n -> 1 <= n -> crun CDataCR rest = (s, o, r) ->
+  crun (CData n) (d ++ rest) = (s, d ++ o, r).
+Proof.
+  induction d as [|c d IH]; intros n rest s o r Hl Hn Hc.
+  - cbn [lenN] in Hl. lia.
+  - cbn [lenN] in Hl. cbn [app]. rewrite crun_cons by reflexivity. cbn [cstep].
+    destruct (n =? 1) eqn:E.
+    + apply N.eqb_eq in E. assert (d = []) by (apply lenN_nil_iff; lia). subst d. cbn [app].
+      rewrite Hc. reflexivity.
+    + apply N.eqb_neq in E. rewrite (IH (n - 1) rest s o r); [reflexivity|lia|lia|exact Hc].
+Qed.
+
+(* ---------- one chunk, the last chunk, a whole body ---------- *)
+Lemma chunk_run u ext d rest s o r :
+  ext_ok ext = true -> d <> [] -> crun CSize0 rest = (s, o, r) ->
+  crun CSize0 (enc_chunk u ext d ++ rest) = (s, d ++ o, r).
+Proof.
+  intros He Hd Hc. unfold enc_chunk. rewrite <- !app_assoc. rewrite hex_len_run.
+  unfold crlf. cbn [app]. rewrite ext_run by exact He.
+  assert (Hl : 1 <= lenN d) by now apply lenN_pos.
+  rewrite (crun_step (CSizeLF (lenN d)) 10 _ (CData (lenN d))); [|reflexivity|].
+  2:{ cbn [cstep]. destruct (lenN d =? 0) eqn:E; [apply N.eqb_eq in E; lia|reflexivity]. }
+  apply data_run; [reflexivity|exact Hl|].
+  rewrite (crun_step CDataCR 13 _ CDataLF) by reflexivity.
+  rewrite (crun_step CDataLF 10 _ CSize0) by reflexivity. exact Hc.
+Qed.
+
+Lemma trailer_line_run l rest : line_ok l = true ->
+  crun CTr0 (l ++ crlf ++ rest) = crun CTr0 rest.
+Proof.
+  unfold line_ok. intros H. apply andb_prop in H. destruct H as [Hne Hall].
+  destruct l as [|c l]; [discriminate|]. cbn [forallb] in Hall. apply andb_prop in Hall. destruct Hall as [Hc Hl].
+  cbn [app]. rewrite (crun_step CTr0 c _ CTr); [|reflexivity|].
+  2:{ unfold no_crlf in Hc. cbn [cstep]. destruct (c =? 13); [discriminate|]. destruct (c =? 10); [discriminate|reflexivity]. }
+  clear Hc Hne. induction l as [|x l IH].
+  - unfold crlf. cbn [app]. rewrite (crun_step CTr 13 _ CTrLF) by reflexivity.
+    now rewrite (crun_step CTrLF 10 _ CTr0) by reflexivity.
+  - cbn [forallb] in Hl. apply andb_prop in Hl. destruct Hl as [Hx Hl]. cbn [app].
+    rewrite (crun_step CTr x _ CTr); [now apply IH|reflexivity|].
+    unfold no_crlf in Hx. cbn [cstep]. destruct (x =? 13); [discriminate|]. destruct (x =? 10); [discriminate|reflexivity].
+Qed.
+
+Lemma trailer_run ls rest : forallb line_ok ls = true ->
+  crun CTr0 (enc_trailer ls ++ rest) = crun CTr0 rest.
+Proof.
+  induction ls as [|l ls IH]; intros H; [reflexivity|].
+  cbn [forallb] in H. apply andb_prop in H. destruct H as [Hl Hls].
+  unfold enc_trailer. cbn [map concat]. rewrite <- !app_assoc. rewrite trailer_line_run by exact Hl.
+  now apply IH.
+Qed.
+
+Lemma last_run ext ls rest :
+  ext_ok ext = true -> forallb line_ok ls = true ->
+  crun CSize0 (enc_last ext (enc_trailer ls) ++ rest) = (CDone, [], rest).
+Proof.
+  intros He Hl. unfold enc_last, crlf. rewrite <- !app_assoc. cbn [app].
+  rewrite (crun_step CSize0 48 _ (CSize 0)) by reflexivity.
+  rewrite ext_run by exact He.
+  rewrite (crun_step (CSizeLF 0) 10 _ CTr0) by reflexivity.
+  rewrite trailer_run by exact Hl. cbn [app].
+  rewrite (crun_step CTr0 13 _ CEndLF) by reflexivity.
+  rewrite (crun_step CEndLF 10 _ CDone) by reflexivity.
+  apply crun_final. reflexivity.
+Qed.
+
+Lemma chunks_run u ext ds rest s o r :
+  ext_ok ext = true -> Forall nonempty ds -> crun CSize0 rest = (s, o, r) ->
+  crun CSize0 (concat (map (enc_chunk u ext) ds) ++ rest) = (s, concat ds ++ o, r).
+Proof.
+  intros He Hd Hc. induction Hd as [|d ds Hne Hds IH]; [exact Hc|].
+  cbn [map concat]. rewrite <- !app_assoc. now apply chunk_run.
+Qed.
+
+Theorem chunked_roundtrip u ext ds tr rest :
+  ext_ok ext = true -> Forall nonempty ds -> forallb line_ok tr = true ->
+  crun CSize0 (enc_chunked u ext ds tr ++ rest) = (CDone, concat ds, rest).
+Proof.
+  intros He Hd Ht. unfold enc_chunked. rewrite <- app_assoc.
+  rewrite (chunks_run u ext ds _ CDone [] rest He Hd); [now rewrite app_nil_r|].
+  now apply last_run.
+Qed.
+
+Theorem chunks_without_last u ext ds :
+  ext_ok ext = true -> Forall nonempty ds ->
+  crun CSize0 (concat (map (enc_chunk u ext) ds)) = (CSize0, concat ds, []).
+Proof.
+  intros He Hd. rewrite <- (app_nil_r (concat (map (enc_chunk u ext) ds))).
+  rewrite (chunks_run u ext ds [] CSize0 [] [] He Hd); [now rewrite app_nil_r|reflexivity].
+Qed.
+
+Lemma pack_chunk_nil : pack_chunk [] = last_chunk.
+Proof. reflexivity. Qed.
+Lemma last_chunk_enc : last_chunk = enc_last [] (enc_trailer []).
+Proof. reflexivity. Qed.
